@@ -80,7 +80,10 @@ def judge(prog, obs, allow_missing_following=False, sof=False):
     if kind == 'start':
       starts[e[3]] = starts.get(e[3], 0) + 1
       first_start.setdefault(e[3], e[0])
-    elif kind == 'hang':
+    elif kind in ('hang', 'hang_unkillable'):
+      # ('hang_unkillable': a body blocked in a C wait that the executor
+      # abandons after cancel_timeout_s; it unwinds whenever the harness
+      # releases it, possibly before the event log is read)
       hung.add((e[3], e[4]))
   last_event = {}
   for e in ev:
